@@ -622,3 +622,20 @@ pub fn repeat_step_texts(feats: &mut [FeatSpec], r: &mut Rng) {
         }
     }
 }
+
+/// Gives some scenarios of a feature the same name (they differ by line only).
+pub fn same_scenario_names(feats: &mut [FeatSpec], r: &mut Rng) {
+    for f in feats.iter_mut() {
+        if f.scenarios.len() >= 2 && r.chance(1, 2) {
+            let name = f.scenarios[0].name.clone();
+            let k = 1 + r.below(f.scenarios.len() - 1);
+            f.scenarios[k].name = name;
+        }
+        for rule in f.rules.iter_mut() {
+            if rule.scenarios.len() >= 2 && r.chance(1, 2) {
+                let name = rule.scenarios[0].name.clone();
+                rule.scenarios[1].name = name;
+            }
+        }
+    }
+}
